@@ -120,6 +120,14 @@ func diffTraverser() *Result {
 		parseAdd(s, 7, "g-cfg")
 		parseAdd(s, 5, "g-cfg")
 	}
+	nn := 300
+	if opts.Tier == "thorough" {
+		nn = 5000
+	}
+	for _, b := range nestedStmtSources(rng, nn) {
+		parseAdd(b, 7, "nested-stmts")
+		parseAdd(b, 5, "nested-stmts")
+	}
 	diffLines(r, lines, real)
 	r.DistinctNontrivial = nontrivial
 	if len(lines) > 0 {
